@@ -23,6 +23,7 @@ def check(chk, thorough=False):
     chk.run('C17.b', 'R-SCHEMA', 'every bound message type has a dispatch arm, unknown types are rejected, base handlers reject outside a session and overrides call them first', lambda ob: c17b(tree, ob), floor=12)
     chk.run('C17.c', 'R-SCHEMA', 'every keyword used to build a message and every field read from a dispatched message is a field of that message class', lambda ob: c17c(tree, ob), floor=15)
     chk.run('C17.d', 'R-ORDER', 'no delivery from mismatched transfers (= C01.d) and each START begins with fresh receive state', lambda ob: (c01d(tree, ob), c17d(tree, ob)), floor=9)
+    chk.run('C17.g', 'R-FLOW', 'a stale peer message cannot hit a later transfer: transfer IDs come from a counter that only grows and are never reused (= C04.g)', lambda ob: __import__('sa.props.c04', fromlist=['c04g']).c04g(tree, ob), floor=2)
     chk.run('C17.f', 'R-GUARD', 'a message of unknown type is not classified as partial: it reaches the dispatcher, whose default arm rejects it', lambda ob: c17f(tree, ob), floor=2)
     chk.run('C17.e2', 'R-PAIR', 'transfers that are finished or abandoned leave the TX map (with the right key), so later peer messages about them are rejected as unknown (= C18.c)', lambda ob: _c18c(tree, ob), floor=8)
     chk.run('C17.e', 'R-FLOW', 'peer-driven handlers change TX state only for the transfer they looked up by the peer id', lambda ob: c17e(tree, ob), floor=3)
@@ -250,9 +251,55 @@ def _peer_text(tree, ob):
     ob.require(n >= 1, 'conversion of the peer node id not found')
 
 
+def peer_enum_lookups(tree, ob):
+    ''' a code point chosen by the peer (a reason, a type) need not be one this implementation knows.  Looking it up in an
+    IntEnum -- Reason(reason) -- raises ValueError for every other value, out of the message handler and so out of the
+    receive callback: the message is not acted on (a SESS_TERM with an unassigned reason is never recorded, neither end
+    closes).  Inside the handlers such lookups are wrapped (try / except ValueError) or not made. '''
+    n = 0
+    for cname in ('Messenger', 'ContactHandler'):
+        cls = tree.klass(SESS, cname)
+        for m in [x for x in cls.body if isinstance(x, ast.FunctionDef) and x.name.startswith('recv_')]:
+            params = {a.arg for a in m.args.args[1:]}
+            for c in calls_in(m):
+                name = dotted(c.func) or ''
+                parts = name.split('.')
+                if len(parts) < 2 or not c.args or len(c.args) != 1:
+                    continue
+                # messages.<Class>.<Enum> or <Class>.<Enum>
+                qual = '.'.join(parts[1:]) if parts[0] in ('messages',) else name
+                if not tree.has_class(MSGS, qual):
+                    continue
+                bases = [dotted(b) or '' for b in tree.klass(MSGS, qual).bases]
+                if not any(b.split('.')[-1] == 'IntEnum' or b.split('.')[-1] == 'Enum' for b in bases):
+                    continue
+                used = {x.id for x in ast.walk(c.args[0]) if isinstance(x, ast.Name)}
+                if not (used & params):
+                    continue
+                n += 1
+                prev = c
+                cur = getattr(c, '_parent', None)
+                guarded = False
+                while cur is not None and cur is not m:
+                    if isinstance(cur, ast.Try) and any(prev is st or prev in ast.walk(st) for st in cur.body):
+                        from ..cfg import handler_names
+                        for h in cur.handlers:
+                            if any((nm or 'BaseException').split('.')[-1] in ('ValueError', 'Exception', 'BaseException') for nm in handler_names(h)):
+                                guarded = True
+                    prev = cur
+                    cur = getattr(cur, '_parent', None)
+                if guarded:
+                    ob.site(SESS, c, '{}.{}: enumeration lookup of a peer value is guarded'.format(cname, m.name))
+                else:
+                    ob.violate(SESS, '{}.{}'.format(cname, m.name), src(c), 'a value chosen by the peer is looked up in an enumeration: for a code point this implementation does not know the lookup '
+                               'raises ValueError out of the message handler, the message (e.g. a SESS_TERM with an unassigned reason) is never acted on', c)
+    ob.site(SESS, tree.klass(SESS, 'Messenger'), 'message handlers make no unguarded enumeration lookup of a peer value ({} guarded)'.format(n))
+
+
 def c17a(tree, ob):
     _stop_after_close(tree, ob)
     _peer_text(tree, ob)
+    peer_enum_lookups(tree, ob)
     roots = _roots(tree)
     ob.require(len(roots) >= 6, 'expected at least six event-loop callbacks in session.py, found {}'.format(sorted(roots)))
     esc = Escapes(tree)
